@@ -125,3 +125,20 @@ func specRel(opts []layers.TCPOption, a int, o int, isn uint32) uint32 {
 //@ ensures[C10.entry.atom]  ret1 != nil ==> ret0 == nil
 //@ ensures[C03.entry.hops]  ret1 == nil ==> ret0 != nil && forall(i, 0, len(ret0.Hops), ret0.Hops[i] != nil)
 //@ modifies *
+
+//@ func (*sackDriver).SendProbe
+//@ safety C06 C05
+//@ requires[pre.nonnil]   s != nil && s.sink != nil
+//@ requires[pre.len]      s.state != nil ==> len(s.sendTimes) == int(s.params.ParallelParams.MaxTTL)+1
+//@ requires[pre.past]     forall(k, 0, len(s.sendTimes), s.sendTimes[k] <= now())
+//@ ensures[C06.once]      ret0 == nil ==> specInv(s) && specInRange(s, uint32(ttl)) && old(s.sendTimes[ttl]) == 0 && s.sendTimes[ttl] != 0
+//@ ensures[C06.others]    forall(k, 0, len(s.sendTimes), k != int(ttl) ==> s.sendTimes[k] == old(s.sendTimes[k]))
+//@ ensures[C05.stamp]     ret0 == nil ==> wrN == old(wrN)+1 && s.sendTimes[ttl] <= wrClock && s.sendTimes[ttl] >= old(now())
+//@ ensures[C05.past]      forall(k, 0, len(s.sendTimes), s.sendTimes[k] <= now())
+//@ ensures[C06.wire.ttl]  ret0 == nil ==> ghost(ser.ttl) == int(ttl) && ghost(ser.proto) == 6 && ghost(ser.version) == 4 && ghost(ser.ipid) == 41821
+//@ ensures[C06.wire.seq]  ret0 == nil ==> ghost(ser.seq) == (int(s.state.localInitSeq) + int(ttl)) % 4294967296 && ghost(ser.acknum) == int(s.state.localInitAck)
+//@ ensures[C06.wire.port] ret0 == nil ==> ghost(ser.sport) == int(s.localPort) && ghost(ser.dport) == int(s.params.Target.Port()) && ghost(ser.ack) && ghost(ser.psh) && !ghost(ser.syn) && !ghost(ser.rst) && !ghost(ser.fin)
+//@ ensures[C06.wire.opts] ret0 == nil ==> ghost(ser.fix) && ghost(ser.csum) && ghost(ser.pseudo)
+//@ ensures[C10.send.wrap] ret0 != nil ==> noRepoErr(ret0)
+//@ lemma[C06.inject]      forall(b, 0, 4294967296, forall(a, 0, 256, forall(c, 0, 256, a != c ==> (b + a) % 4294967296 != (b + c) % 4294967296)))
+//@ modifies elems(s.sendTimes), ghost clock, ghost wrN, ghost wrClock
